@@ -74,6 +74,12 @@ def recursion_family(rng):
         ('redef_arity', 'PROGRAM f IN a DO\n  x0 := a + 1\nEND\nPROGRAM f IN a, b DO\n  x0 := RUN f WITH a END\nEND\nx1 := RUN f WITH 1, 2 END\n', True),
         ('self_nested_arg', 'PROGRAM f IN a DO\n  x0 := a\nEND\nPROGRAM g IN a DO\n  x0 := RUN f WITH RUN g WITH a END END\nEND\nx1 := RUN g WITH 1 END\n', False),
         ('main_forward', 'x1 := RUN f WITH 1 END\n', False),
+        ('self_noargs', 'PROGRAM f DO\n  x0 := RUN f WITH END\nEND\nx1 := RUN f WITH END\n', False),
+        ('forward_noargs', 'PROGRAM f DO\n  x0 := RUN g WITH END\nEND\nPROGRAM g DO\n  x0 := 1\nEND\nx1 := RUN f WITH END\n', False),
+        ('mutual_noargs', 'PROGRAM ping DO\n  x0 := RUN pong WITH END\nEND\nPROGRAM pong DO\n  x0 := RUN ping WITH END\nEND\nx1 := RUN ping WITH END\n', False),
+        ('undefined_noargs', 'x1 := RUN nosuch WITH END\n', False),
+        ('loop_self_noargs', 'PROGRAM f DO\n  LOOP x0 DO\n    x1 := RUN f WITH END\n  END\nEND\nx1 := RUN f WITH END\n', False),
+        ('backward_noargs', 'PROGRAM g DO\n  x0 := 4\nEND\nPROGRAM f DO\n  x0 := RUN g WITH END\nEND\nx1 := RUN f WITH END\n', True),
         ('chain3', 'PROGRAM a IN x DO\n  x0 := x + 1\nEND\nPROGRAM b IN x DO\n  x0 := RUN a WITH x END\nEND\nPROGRAM c IN x DO\n  x0 := RUN b WITH RUN a WITH x END END\nEND\nx1 := RUN c WITH 2 END\n', True),
     ]
     for name, src, ok in T:
